@@ -1,6 +1,7 @@
 """C02 - the operator table decides the parse tree."""
 from vlib.pyvc.unit import contract_unit
-from props._common import frame_unit, bounded_unit
+from props._common import (frame_unit, bounded_unit, run_replay,
+                           attach_replay)
 from contracts import factory, lexer
 
 LEVEL = 'proof'
@@ -50,3 +51,13 @@ def units(ctx):
         'operator tables x all expressions with <= 3 binary and <= 2 prefix '
         'operators (+ parenthesised variant)', timeout=600))
     return us
+
+
+def post(ctx, results):
+    """Replay: the insert_operator / constructor shape family run natively."""
+    def hit(o):
+        return 'insert_operator' in o['name'] or '__init__' in o['name']
+    if any(o['status'] == 'failed' and hit(o)
+           for r in results for o in r['obligations']):
+        attach_replay(results, hit, run_replay('c02_insert.py', ctx))
+    return results
